@@ -33,7 +33,8 @@ THEOREMS = ["C19_ir_tie", "C19_save_load_exact", "C19_history_load_exact", "C19_
             "C19_master_copy_in_snapshot_refuted", "C19_crash_unlink_symlink_refuted",
             "C19_crash_resave_refuted", "C19_resave_after_crash_stale_refuted",
             "C19_window_tie", "C19_serve_mode_tie", "C19_train_mode_tie", "C19_train_step_order_tie",
-            "C19_run_async_order_tie", "C19_train_loop_order_tie", "C19_hooks_run_in_serving_precision"]
+            "C19_run_async_order_tie", "C19_train_loop_order_tie", "C19_hooks_run_in_serving_precision",
+            "C19_resume_precedence_tie"]
 MODEL_TARGETS = ["gen/SaveIR.vo", "gen/TrainIR.vo", "model/Snapshot.vo", "model/Harness.vo"]
 TRUSTED_BASE = [
     "harness/save_ir.py (fail-closed ast translator saving.py/trainer.py/loading.py -> gen/SaveIR.v)",
@@ -62,7 +63,8 @@ HEADER = ("From Coq Require Import String.\nFrom Coq Require Import ZArith List 
 STUB = ("(* harness/save_ir.py could not translate the source: %s *)\n"
         "From Coq Require Import List String.\nImport ListNotations.\nOpen Scope string_scope.\n\n" + save_ir.TYPES +
         "\n\nDefinition save_prog : list stmt := [].\nDefinition load_reads : list (string * comp) := [].\n"
-        "Definition resume_probe : pexp := PLatest.\n")
+        "Definition resume_probe : pexp := PLatest.\n"
+        "Definition resume_branches : list (list rcond * ract) := [].\n")
 
 
 def train_ir_stub(why):
@@ -188,9 +190,10 @@ def tensor_diffs(m, a, b):
     return out
 
 
-def new_run(m, run_dir, serve=None, train=None, cap=4, dtype=None, pe="sin"):
+def new_run(m, run_dir, serve=None, train=None, cap=4, dtype=None, pe="sin", load_model=None):
     """what TrainingRun.run_async builds before load_or_init_model"""
-    cfg = m.Config(model=model_cfg(m, pe), device="cpu", run_dir=run_dir, hooks=[], replay_buffer_steps=cap,
+    cfg = m.Config(model=model_cfg(m, pe), device="cpu", run_dir=run_dir, load_model=load_model, hooks=[],
+                   replay_buffer_steps=cap,
                    train_batch=4, train_positions=4, lr=1e-2)
     if serve is not None:
         cfg.serve_dtype = serve
@@ -432,6 +435,17 @@ class World:
             shutil.rmtree(ref)
         return self.states[key]
 
+    def initial(self, with_opt):
+        """a saved initial model (config.load_model), with or without an opt.pt next to it"""
+        d = os.path.join(self.base, "init_opt" if with_opt else "init")
+        if not os.path.isdir(d):
+            st = make_state(self.m, 0, 77)
+            self.m.loading.save_model(st.model, d)
+            if with_opt:
+                self.m.torch.save(st.opt.state_dict(), os.path.join(d, "opt.pt"))
+            self.initial_state = {k: v.detach().clone() for k, v in st.model.state_dict().items()}
+        return d
+
     def fresh_dir(self):
         self.n += 1
         d = os.path.join(self.base, f"run{self.n}")
@@ -539,20 +553,40 @@ def listing(world, run_dir, comp_of):
     return ents
 
 
-def resume_real(world, run_dir):
+def resume_real(world, run_dir, load_model=None):
     """load_or_init_model of a fresh TrainingRun: ('Resumed', step, {comp: (step, ver) or None}) / ('Scratch',) /
-    ('Broken', exception class)"""
+    ('Initial',) (config.load_model was loaded) / ('Broken', exception class).  world.last_action = which branch ran."""
     m = world.m
-    tr = new_run(m, run_dir)
-    called = []
+    tr = new_run(m, run_dir, load_model=load_model)
+    acts = []
     real_init = tr.state.model.init_weights
-    tr.state.model.init_weights = lambda *a, **k: (called.append(1), real_init(*a, **k))[1]
+    tr.state.model.init_weights = lambda *a, **k: (acts.append("AInitWeights"), real_init(*a, **k))[1]
+    real_ls, real_snap = m.trainer.load_state, m.loading.load_snapshot
+
+    def ls(state, path):
+        acts.append("ALoadState")
+        return real_ls(state, path)
+
+    def snap(model, path):
+        if load_model is not None and os.path.realpath(path) == os.path.realpath(load_model):
+            acts.append("ALoadInitial")
+        return real_snap(model, path)
+    m.trainer.load_state, m.loading.load_snapshot = ls, snap
     try:
-        tr.load_or_init_model()
+        try:
+            tr.load_or_init_model()
+        finally:
+            m.trainer.load_state, m.loading.load_snapshot = real_ls, real_snap
+            action = world.last_action = acts[0] if acts else None
     except Exception as e:      # noqa
         return ("Broken", type(e).__name__), tr
-    if called:
+    if action == "AInitWeights":
         return ("Scratch",), tr
+    if action == "ALoadInitial":
+        init = world.initial_state
+        same = all(m.torch.equal(v, init[k]) for k, v in tr.state.model.state_dict().items())
+        return (("Initial",) if same and tr.state.elapsed.step == 0 and not tr.state.replay_buffer
+                else ("Broken", "initial model not restored")), tr
     el = tr.state.elapsed
     if not isinstance(el, m.stats.Elapsed) or not isinstance(getattr(el, "step", None), int):
         return ("Broken", f"elapsed={el!r}"[:80]), tr
@@ -668,6 +702,8 @@ def oracle(prev, events, done, crashed, res):
 def crash_cases(run, world, comp_of):
     m = world.m
     cs = core.Cases(ID, "crash", HEADER, "crash_case", "crash_case_ok", show="crash_case_view", shard=60)
+    bs = core.Cases(ID, "branch", HEADER, "(bool * bool * bool * option ract)%type", "branch_case_ok",
+                    show="fun c => let '(rd, lm, ex, _) := c in choose_branch rd lm ex", shard=400)
     ts = core.Cases(ID, "trace", HEADER, "(list (Z * Z) * list (op CB))%type", "trace_case_ok",
                     show="fun c => hist_ops [] (hist_of (fst c))", shard=20)
     stats = {"runs": 0, "Scratch": 0, "Resumed": 0, "Broken": 0, "histories": 0}
@@ -678,7 +714,33 @@ def crash_cases(run, world, comp_of):
     def one(runs, label, spelling="abs"):
         """runs = [(events, crash_at)] -> case + oracle"""
         run_dir, info = execute(world, runs, spelling)
-        res, _ = resume_real(world, run_dir)
+        res, tr0 = resume_real(world, run_dir)
+        act0 = world.last_action
+        exists = os.path.exists(os.path.join(run_dir, "latest"))
+        bs.add(f"(true, false, {cbool(exists)}, {'Some ' + act0 if act0 else 'None'})",
+               {"label": label, "load_model": None, "latest_exists": exists, "action": act0})
+        if stats["runs"] % 2 == 0:
+            # the same start with config.load_model set (as every restart of a run that began from an initial model has)
+            with_opt = stats["runs"] % 4 == 0
+            res2, tr2 = resume_real(world, run_dir, load_model=world.initial(with_opt))
+            act2 = world.last_action
+            bs.add(f"(true, true, {cbool(exists)}, {'Some ' + act2 if act2 else 'None'})",
+                   {"label": label, "load_model": "initial model" + (" + opt.pt" if with_opt else ""),
+                    "latest_exists": exists, "action": act2,
+                    "runs": [{"events": ev, "crash_after_ops": k} for ev, k in runs]})
+            want = res if res[0] != "Scratch" else ("Initial",)
+            if res2[:2] != want[:2] or (res[0] == "Resumed" and res2[2] != res[2]):
+                stats["load_model_failures"] = stats.get("load_model_failures", 0) + 1
+                if stats["load_model_failures"] <= 6:
+                    run.violation(f"resume-load-model:{label}:k={'/'.join(str(kk) for _, kk in runs)}",
+                                  {"clause": "the run directory resumes from its last complete snapshot (never silently "
+                                             "from the initial model) also when config.load_model is set",
+                                   "history": [{"events": ev, "crash_after_ops": k} for ev, k in runs],
+                                   "run_dir_spelling": spelling, "load_model": "saved initial model" + (" with opt.pt" if with_opt else ""),
+                                   "latest_exists": exists, "without_load_model": res[:2], "with_load_model": res2[:2],
+                                   "branch_taken": act2,
+                                   "resumed_step": getattr(tr2.state.elapsed, "step", None),
+                                   "replay_buffer_batches": len(tr2.state.replay_buffer)})
         try:
             ents = listing(world, run_dir, comp_of)
         except ValueError as e:
@@ -782,6 +844,24 @@ def crash_cases(run, world, comp_of):
         shutil.rmtree(run_dir, ignore_errors=True)
         for k2 in range(n2 + 1):
             one([(first, k1), (second, k2 if k2 < n2 else None)], f"two-runs-k1={k1}")
+    # process B has nothing left to train (train_steps already reached): it resumes and only performs the end-of-run
+    # save of the step it resumed from, with the state it loaded; every crash index of that save
+    n_first = None
+    for k1 in ([None, n1 - 1, n1 - 2, n1 - 4, n1 // 2, n1 // 2 - 1] if run.quick else [None] + list(range(1, n1))):
+        one([(first, k1)], f"end-only-first-k1={k1}")
+        prev = PREV_CACHE.get(((tuple(first), k1),))
+        b_only = [("end",) + (prev if prev else (0, 5))]
+        run_dir, info = execute(world, [(first, k1), (b_only, None)])
+        nb1 = info[1]["count"]
+        shutil.rmtree(run_dir, ignore_errors=True)
+        for kb in range(nb1 + 1):
+            one([(first, k1), (b_only, kb if kb < nb1 else None)], f"end-only-k1={k1}")
+    # config without run_dir: load_model or init_weights
+    for lm in (None, world.initial(False)):
+        resume_real(world, None, load_model=lm)
+        actx = world.last_action
+        bs.add(f"(false, {cbool(lm is not None)}, false, {'Some ' + actx if actx else 'None'})",
+               {"label": "no-run-dir", "load_model": bool(lm), "action": actx})
     # the resumed process's FIRST save is for a DIFFERENT step than the one the dead process was interrupted in
     # (another frequency, a SAVE_NOW request): whatever the dead process left behind (latest.tmp, step_N.tmp, an
     # unpublished step_N) must not leak into the completed save.  Every crash index of the first process.
@@ -809,7 +889,7 @@ def crash_cases(run, world, comp_of):
     for kc in range(nc):
         one([a, (b_ev, nb - 1), (c_ev, kc)], "three-runs-kc")
     stats["wall_s"] = round(time.time() - t0, 1)
-    return cs, ts, stats, samples
+    return cs, ts, bs, stats, samples
 
 
 PREV_CACHE = {}
@@ -1205,7 +1285,7 @@ def _correspondence(run):
     base = tempfile.mkdtemp(prefix="verif_c19_")
     try:
         world = World(m, base)
-        cs, ts, st, samples = crash_cases(run, world, comp_of)
+        cs, ts, bs, st, samples = crash_cases(run, world, comp_of)
         if not prog:
             # no translation -> the model has no program to run; only the oracle above speaks
             run.oblige("correspondence:crash+trace skipped: gen/SaveIR.v is a stub (translation failed)", False)
@@ -1231,6 +1311,18 @@ def _correspondence(run):
             idx = ts.metas.index(meta)
             run.violation(f"trace:{meta['label']}", {"clause": "operation sequence of a save", "input": meta,
                                                      "model_view": ts.model_view(ts.terms[idx])})
+        if not prog:
+            bs.terms, bs.metas = [], []
+        failing, shard_fail, nsh = bs.run()
+        run.oblige(f"correspondence:branch ({nsh} shards)", not shard_fail, str(shard_fail)[:1500])
+        run.count(len(bs), len(bs), "which branch of load_or_init_model ran (load_state / load_snapshot(load_model) / "
+                  "init_weights, observed by wrapping the three) for config.run_dir x config.load_model (saved initial model "
+                  "with and without opt.pt) x run_dir/latest present = choose_branch of the regenerated branch structure",
+                  [bs.metas[1]] if len(bs.metas) > 1 else [], label="branch")
+        for meta in failing[:4]:
+            run.violation(f"branch:{meta['label']}:load_model={bool(meta['load_model'])}:latest={meta.get('latest_exists')}",
+                          {"clause": "which snapshot a start resumes from", "input": meta,
+                           "model_view": bs.model_view(bs.terms[bs.metas.index(meta)])})
         rs, n, dist = roundtrip_cases(run, world)
         failing, shard_fail, nsh = rs.run()
         run.oblige(f"correspondence:roundtrip ({nsh} shards)", not shard_fail, str(shard_fail)[:1500])
